@@ -29,8 +29,8 @@ INSERT INTO Inferred VALUES (6, 'y');
 INSERT INTO Named (a, b) VALUES (6, 'y');
 '''
 MUTS = ['write', 'new', 'delete', 'relate', 'unrelate', 'append_attr', 'delete_attr', 'define_id',
-        'define_class', 'write_id']
-OPTS = [('build',), ('input',)] + [('mut', k, u) for k in range(2) for u in range(len(MUTS))]
+        'define_class', 'write_id', 'new_default']
+OPTS = [('build',), ('input',), ('build_int',), ('input_bad',)] + [('mut', k, u) for k in range(2) for u in range(len(MUTS))]
 SEQS = list(itertools.product(range(len(OPTS)), repeat=STEPS))[SHARD::NSHARDS]
 NSEQ = len(SEQS)
 
@@ -70,10 +70,31 @@ def mutate(m, u):
             inst.N = 'n' 
     elif name == 'define_id':
         m.define_unique_identifier('B', 9, 'Id')
+    elif name == 'new_default':
+        m.new('A', Name='defaulted id')          # draws an id from THIS metamodel's generator
     elif name == 'define_class':
         if 'Z' not in m.metaclasses:
             m.define_class('Z', [('Id', 'unique_id')])
         m.new('Z', Id=60)
+
+
+import uuid as _uuid
+_COUNTER = [1 << 100]
+
+
+def _uuid4_stub():
+    # environment stub: uuid4 by its contract (a fresh value per call), deterministic for the symbolic executor
+    _COUNTER[0] += 1
+    return _uuid.UUID(int=_COUNTER[0])
+
+
+_uuid.uuid4 = _uuid4_stub
+
+
+def gen_state(m):
+    """the id the metamodel would hand out next (peek does not advance), and which generator object it uses"""
+    g = m.id_generator
+    return (type(g).__name__, g.peek())
 
 
 def snap(m):
@@ -95,11 +116,15 @@ def check(si: int) -> bool:
     accepted = [T0]
     built = [loader.build_metamodel()]
     snaps = [snap(built[0])]
+    gens = [gen_state(built[0])]
     expect_text = {}
     for step in seq:
-        if step[0] == 'build':
-            m = loader.build_metamodel()
-            built.append(m); snaps.append(snap(m))
+        if step[0] in ('build', 'build_int'):
+            m = loader.build_metamodel() if step[0] == 'build' else loader.build_metamodel(xtuml.IntegerGenerator())
+            built.append(m); snaps.append(snap(m)); gens.append(gen_state(m))
+            if len(set(id(x.id_generator) for x in built)) != len(built):
+                case('c18', [s for s in seq])
+                LAST_DIFF = ('two metamodels share one id generator', seq); return False
             with notrace():
                 fresh = xtuml.ModelLoader()
                 for t in accepted:
@@ -109,6 +134,17 @@ def check(si: int) -> bool:
                 case('c18', [s for s in seq])
                 LAST_DIFF = ('build differs from a build of the same input by a fresh loader', seq, snaps[-1], ref)
                 return False
+        elif step[0] == 'input_bad':
+            # a text that is rejected after two complete statements: nothing of it may show up in any build
+            with notrace():
+                try:
+                    loader.input("INSERT INTO A VALUES (90, 'rejected', 9);\nINSERT INTO B VALUES (91, 1);\nINSERT INTO A VALUES (92, 'x' 9)\n")
+                    rejected = False
+                except xtuml.ParsingException:
+                    rejected = True
+            if not rejected:
+                case('c18', [s for s in seq])
+                LAST_DIFF = ('harness: malformed text accepted',); return False
         elif step[0] == 'input':
             if T1 not in accepted:
                 text = T1
@@ -125,7 +161,7 @@ def check(si: int) -> bool:
             if k >= len(built):
                 return None
             mutate(built[k], u)
-            snaps[k] = snap(built[k])
+            snaps[k] = snap(built[k]); gens[k] = gen_state(built[k])
         # non-interference: every other metamodel still serialises as before
         for n, m in enumerate(built):
             if step[0] == 'mut' and n == step[1]:
@@ -133,5 +169,8 @@ def check(si: int) -> bool:
             if snap(m) != snaps[n]:
                 case('c18', [s for s in seq])
                 LAST_DIFF = ('metamodel %d changed by step' % n, step, seq); return False
+            if gen_state(m) != gens[n]:
+                case('c18', [s for s in seq])
+                LAST_DIFF = ('the id generator of metamodel %d was advanced by a step on another one' % n, step, seq); return False
     case('c18', [list(s) for s in seq])
     return True
